@@ -381,8 +381,19 @@ func damageFile(s *simrt.Sim, cs *confSet, files map[string]string) string {
 					}
 				}
 			} else {
-				rules := adv[cs.products[0]].([]map[string]interface{})
-				rules[len(rules)-1]["ClusterName"] = "ghost_cluster"
+				// (ADVANCED_MODE is a target for basic rules only: in an advanced rule it is
+				// the name of a cluster that does not exist, at the default or a seeded entry)
+				rules := adv[cs.products[tp.Draw(len(cs.products), "dangling.adv_product")]].([]map[string]interface{})
+				i := len(rules) - 1
+				if tp.Chance(1, 2, "dangling.adv_any") {
+					i = tp.Draw(len(rules), "dangling.adv_index")
+				}
+				if tp.Chance(1, 2, "dangling.adv_mode") {
+					rules[i]["ClusterName"] = "ADVANCED_MODE"
+					s.Probe("conf_advanced_rule_targets_advanced_mode")
+				} else {
+					rules[i]["ClusterName"] = "ghost_cluster"
+				}
 			}
 		}
 		nb, _ := json.Marshal(r)
